@@ -2,6 +2,8 @@
 //!
 #[cfg(feature = "frontend")]
 pub mod frontend;
+#[cfg(feature = "verif_hooks")]
+pub mod verif_snapshot;
 pub mod vectorize;
 use crate::datatypes::*;
 use serde::{Deserialize, Serialize};
